@@ -60,18 +60,29 @@ func genFree(w *bufio.Writer, root string, seed uint64, n, ops int) {
 		dir := fmt.Sprintf("%s/f%d", root, h)
 		roll := r.pick([]int64{512, 1024, 4096, 9000})
 		as := r.intn(4) == 0
+		keep := r.intn(2) == 0
+		// "straddle" histories: every record is larger than a page and the head is long-lived, so that a
+		// head rewrite runs while records that cross page boundaries are being appended
+		straddle := r.intn(3) == 0
+		if straddle {
+			roll = r.pick([]int64{60000, 200000})
+		}
 		fmt.Fprintf(w, "# hist %d seed=%d flavor=free\n", h, seed)
-		l, err := klevdb.Open(dir, klevdb.Options{CreateDirs: true, KeyIndex: true, TimeIndex: true, Rollover: roll, AutoSync: as})
+		l, err := klevdb.Open(dir, klevdb.Options{CreateDirs: true, KeyIndex: true, TimeIndex: true, Rollover: roll, AutoSync: as,
+			Version: klevdb.VersionOptions{NewSegmentsVersion: klevdb.V2, KeepRewriteVersion: keep}})
 		if err != nil {
 			fmt.Fprintf(w, "fr.open => %s\n", errRes(err))
 			continue
 		}
-		fmt.Fprintf(w, "fr.open roll=%d as=%d => ok\n", roll, b2i(as))
+		fmt.Fprintf(w, "fr.open roll=%d as=%d keep=%d straddle=%d => ok\n", roll, b2i(as), b2i(keep), b2i(straddle))
 		rec := &frRec{}
 		var known atomic.Int64 // a NextOffset some publisher has been told (for picking offsets only)
 		var tclock atomic.Int64
 		tclock.Store(1_000_000)
 		nPub, nCons, nGet, nDel, nMisc := 1+r.intn(3), 1+r.intn(3), 1+r.intn(2), 1+r.intn(2), 1
+		if straddle {
+			nPub, nDel = 3, 2
+		}
 		var wg sync.WaitGroup
 		gid := 0
 		spawn := func(f func(g int, r *rng)) {
@@ -94,6 +105,9 @@ func genFree(w *bufio.Writer, root string, seed uint64, n, ops int) {
 						vl := r.intn(40)
 						if bigVals && r.chance(30) {
 							vl = 1500 + r.intn(3000) // records that straddle page boundaries
+						}
+						if straddle {
+							vl = 4200 + r.intn(3000)
 						}
 						msgs[j] = klevdb.Message{Key: []byte(fmt.Sprintf("k%d", r.intn(6))), Value: randBytes(r, vl), Time: time.UnixMicro(tclock.Add(1)).UTC()}
 					}
@@ -201,7 +215,11 @@ func genFree(w *bufio.Writer, root string, seed uint64, n, ops int) {
 						continue
 					}
 					set := map[int64]struct{}{}
-					switch r.intn(4) {
+					sel := r.intn(4)
+					if straddle && r.chance(70) {
+						sel = r.intn(2)
+					}
+					switch sel {
 					case 0: // the tail, where the publishers are
 						set[k-1] = struct{}{}
 					case 1:
